@@ -145,7 +145,7 @@ Theorem C13_recovers_partial : forall (o : opts) (kd : kind) (csd : list N) (tim
   k_kind (dev s) = kd -> k_csd (dev s) = csd -> k_tim (dev s) = tim ->
   c_fbuf (dev s) = [] -> c_phase (dev s) = PIdle -> c_mem (dev s) = mem ->
   (exists h, mon (tr s) = inl h /\ h_mode h = HFree) ->
-  mem_ok mem -> legal_call csd c ->
+  mem_ok mem -> api_ok c ->
   exists s1 s', api card card_spi o CMarkUninit s = (Ok VUnit, s1) /\
                 api card card_spi o c s1 = (spec_outcome kd csd mem c, s') /\
                 Inv o kd csd tim s' (spec_after kd csd mem c).
